@@ -48,6 +48,7 @@ struct mthread {
 	const char *opname; int opcls; long opsteps;
 	int cpu;
 	volatile void *pst_addr; unsigned pst_sz;	/* pending plain store to a named address (value logged lazily) */
+	int in_hook;	/* between uv_pre and uv_post of one hooked access: plain accesses made while re-evaluating the hook macro's address argument are not scheduling points */
 	void *keyval[8];
 	char *stk_lo, *stk_hi; int uses_ops;
 	int (*pred)(void *); void *pred_arg;
@@ -65,6 +66,8 @@ static int ending, finished;
 static void (*sighandler)(void);
 static int sig_budget, sig_nest_max = 1, spur_budget, eintr_budget, futex_enosys, membarrier_ok = 1;
 static int watch_plain;
+static void (*unknown_ptr_hook)(const char *var, unsigned long v);
+void vrt_set_unknown_ptr_hook(void (*fn)(const char *var, unsigned long v)) { unknown_ptr_hook = fn; }
 static long decisions;
 static int solo = -1; static char solo_name[24]; static long solo_at = -1, solo_budget = 3000; static int solo_done;
 static long sig_at = -1; static char sig_name[24]; static long sig_points;
@@ -109,6 +112,7 @@ static char *fmtv(char *buf, size_t n, int kind, unsigned sz, unsigned long v)
 	const char *s;
 	if (kind == VK_PTR) { s = vn_find(v); if (s) snprintf(buf, n, "\"%s\"", s); else snprintf(buf, n, "\"?%lx\"", v); return buf; }
 	if (kind == VK_PTRF) { s = vn_find(v & ~7UL); if (s) snprintf(buf, n, "\"%s+%lu\"", s, v & 7UL); else snprintf(buf, n, "\"?%lx\"", v); return buf; }
+	if (kind == VK_GPCTR) { snprintf(buf, n, "%lu", ((v >> 32) ? 65536UL : 0UL) + (v & 0xffffUL)); return buf; }
 	long sv = sz == 1 ? (long)(int8_t) v : sz == 2 ? (long)(int16_t) v : sz == 4 ? (long)(int32_t) v : (long) v;
 	if (sv > 2000000000L || sv < -2000000000L) snprintf(buf, n, "\"x%lx\"", v); else snprintf(buf, n, "%ld", sv);
 	return buf;
@@ -358,12 +362,20 @@ void uv_pre(int op, const volatile void *addr, unsigned int sz, int mo, const ch
 	qcheck(addr, sz, file, line);
 	int nd = !(op == UV_LD || op == UV_RELAX || (op == UV_ST && mo < 5));
 	sched_point(op, nd);
+	T[self].in_hook = 1;
 }
 void uv_post(int op, const volatile void *addr, unsigned int sz, unsigned long a, unsigned long b, unsigned long res, int mo, const char *file, int line)
 {
 	char b1[64], b2[64], b3[64];
+	if (self >= 0) T[self].in_hook = 0;
 	if (self < 0 || !trace) { if (self >= 0) trace_check(); return; }
 	struct nm *n = addr ? nm_find(addr) : NULL; int k = n ? n->kind : VK_INT;
+	if (n && k != VK_INT && unknown_ptr_hook) {	/* let the driver name dynamically created objects (stack wait nodes, malloc'ed nodes) */
+		unsigned long m_ = k == VK_PTRF ? ~7UL : ~0UL;
+		if ((op == UV_ST || op == UV_XCHG) && !vn_find(a & m_)) unknown_ptr_hook(n->n, a & m_);
+		if (op == UV_CAS && !vn_find(b & m_)) unknown_ptr_hook(n->n, b & m_);
+		n = nm_find(addr);
+	}
 	int opk = (op == UV_ADDRET || op == UV_ADD) && k != VK_INT ? VK_INT : k;
 	fprintf(trace, "{\"t\":\"%s\",\"op\":\"%s\",\"var\":\"%s\",\"a\":%s,\"b\":%s,\"r\":%s,\"mo\":%d,\"loc\":\"%s:%d\"}\n", T[self].name, opn[op],
 		addr ? (n ? n->n : "?") : "-", fmtv(b1, sizeof b1, (op >= UV_ADDRET && op <= UV_AND) ? VK_INT : opk, sz, a), fmtv(b2, sizeof b2, k, sz, b), fmtv(b3, sizeof b3, k, sz, res), mo, base(file), line);
@@ -410,11 +422,12 @@ static void plain(void *a, unsigned sz, int is_write, void *pc)
 		else for (int i = 0; i < m->nsb; i++) { const char *b = (const char *) m->sb[i].a;
 			if ((const char *) a < b + m->sb[i].sz && b < (const char *) a + sz) { drain(self); break; } }
 	}
-	if (!watch_plain) return;
+	if (!watch_plain || m->in_hook) return;
 	struct nm *n = nm_find(a);
 	if (!n && watch_plain < 2) return;
 	lazy_plain();
 	sched_point(UV_PLAIN, 0);
+	if (nq) qcheck(a, sz, "plain-access", 0);
 	if (!n) return;
 	if (is_write) { m->pst_addr = a; m->pst_sz = sz; }
 	else if (trace) { char b[64]; fprintf(trace, "{\"t\":\"%s\",\"op\":\"ld\",\"var\":\"%s\",\"r\":%s,\"mo\":-1,\"loc\":\"plain\"}\n", m->name, n->n, fmtv(b, sizeof b, n->kind, sz, rdm(a, sz))); trace_check(); }
@@ -654,6 +667,7 @@ void vrt_op_begin(const char *name, enum vrt_prog cls) { if (self < 0) return; T
 long vrt_op_end(void)
 {
 	if (self < 0) return 0;
+	lazy_plain();	/* the operation's last plain store is logged before any later event of the caller */
 	long s = T[self].opsteps; T[self].opname = NULL;
 	if (solo == self) { solo = -1; if (trace) { fprintf(trace, "{\"t\":\"%s\",\"op\":\"solo_end\",\"steps\":%ld}\n", T[self].name, s); trace_check(); } }
 	return s;
